@@ -112,7 +112,18 @@ func (g *c20Gen) claim() *c20Claim {
 			c.Index = big.NewInt(int64(g.seed)) // cannot match: the old contract's index is a uint32
 		}
 	case c.Etrog:
-		c.Index = new(big.Int).Add(g.target, big.NewInt(int64(1+g.ch.Int(0, 3, "off"))))
+		// a different global index: a small offset, or the same low bits with another mainnet flag / rollup index
+		// (the fields above bit 31 matter as much as the leaf index)
+		switch g.ch.Int(0, 3, "decoyKind") {
+		case 0:
+			c.Index = new(big.Int).Add(g.target, big.NewInt(int64(1+g.ch.Int(0, 3, "off"))))
+		case 1:
+			c.Index = new(big.Int).Xor(g.target, new(big.Int).Lsh(big.NewInt(1), 64)) // other mainnet flag, same rollup and leaf
+		case 2:
+			c.Index = new(big.Int).Xor(g.target, new(big.Int).Lsh(big.NewInt(int64(1+g.ch.Int(0, 2, "rollupOff"))), 32)) // other rollup index
+		default:
+			c.Index = new(big.Int).Xor(g.target, new(big.Int).Lsh(big.NewInt(1), uint(65+g.ch.Int(0, 100, "highBit")))) // differs only in a high bit
+		}
 	default:
 		c.Index = big.NewInt(int64(100000 + int(g.seed)))
 		if c.Index.Cmp(g.target) == 0 {
